@@ -162,10 +162,60 @@ def twin_table(tier):
     return T
 
 
-def find_rlib():
+def find_rlib(features=()):
+    """the evenio rlib cargo uses for the harness's debug build with these features (asked from cargo itself: the deps
+    directory may hold several builds of evenio with different feature sets)"""
     deps = os.path.join(CACHE, "target", "debug", "deps")
+    cmd = ["cargo", "build", "--offline", "--message-format=json"] + (["--features", ",".join(features)] if features else [])
+    try:
+        p = subprocess.run(cmd, cwd=os.path.join(ROOT, "harness"), capture_output=True, text=True, timeout=1800,
+                           env=dict(os.environ, CARGO_NET_OFFLINE="true"))
+        found = None
+        for line in p.stdout.split("\n"):
+            if '"compiler-artifact"' not in line:
+                continue
+            try:
+                m = json.loads(line)
+            except Exception:
+                continue
+            if m.get("target", {}).get("name") == "evenio" and "lib" in m.get("target", {}).get("kind", []):
+                for f in m.get("filenames", []):
+                    if f.endswith(".rlib"):
+                        found = f
+        if found:
+            return found, deps
+    except Exception:
+        pass
+    if features:
+        return None, deps
     cands = sorted(glob.glob(os.path.join(deps, "libevenio-*.rlib")), key=os.path.getmtime)
     return (cands[-1] if cands else None), deps
+
+
+def rayon_twins():
+    """the gates of parallel iteration (feature `rayon`): shared parallel iteration and cloning a parallel iterator need a
+    read-only query, every parallel iterator needs Send items"""
+    T = []
+
+    def add(name, body, must_compile, flag):
+        T.append(dict(name=name, body="use evenio::rayon::prelude::*; " + body, must_compile=must_compile, gate=("flag", flag), rayon=True))
+
+    add("par-clone[m0]", "world.add_handler(|_: Receiver<E>, mut f: Fetcher<&mut A>| { let it = f.par_iter_mut(); let _ = it.clone(); });", False, "par_clone_gated")
+    add("par-clone[r0]", "world.add_handler(|_: Receiver<E>, f: Fetcher<&A>| { let it = f.par_iter(); let it2 = it.clone(); it.for_each(|_| {}); it2.for_each(|_| {}); });", True, "par_clone_gated")
+    add("par-clone[?m0]", "world.add_handler(|_: Receiver<E>, mut f: Fetcher<(EntityId, Option<&mut A>)>| { let it = (&mut f).into_par_iter(); let _ = it.clone(); });", False, "par_clone_gated")
+    add("par-iter-shared[m0]", "world.add_handler(|_: Receiver<E>, f: Fetcher<&mut A>| { f.par_iter().for_each(|_| {}); });", False, "par_iter_gated")
+    add("par-iter-shared[X<r0|m1>]", "world.add_handler(|_: Receiver<E>, f: Fetcher<Xor<&A, &mut B>>| { (&f).into_par_iter().for_each(|_| {}); });", False, "par_iter_gated")
+    add("par-iter-shared[r0]", "world.add_handler(|_: Receiver<E>, f: Fetcher<&A>| { f.par_iter().for_each(|_| {}); (&f).into_par_iter().for_each(|_| {}); });", True, "par_iter_gated")
+    add("par-iter-mut[m0]", "world.add_handler(|_: Receiver<E>, mut f: Fetcher<&mut A>| { f.par_iter_mut().for_each(|a| { a.0 += 1; }); });", True, "par_iter_gated")
+    add("par-iter-owned[m0]", "world.add_handler(|_: Receiver<E>, f: Fetcher<&mut A>| { f.into_par_iter().for_each(|a| { a.0 += 1; }); });", True, "par_iter_gated")
+    add("par-send[&Rc]", "world.add_handler(|_: Receiver<E>, f: Fetcher<&R>| { f.par_iter().for_each(|_| {}); });", False, "par_item_send")
+    add("par-send[&mut Rc]", "world.add_handler(|_: Receiver<E>, mut f: Fetcher<&mut R>| { f.par_iter_mut().for_each(|_| {}); });", False, "par_item_send")
+    add("par-send[&mut guard]", "world.add_handler(|_: Receiver<E>, mut f: Fetcher<&mut Gd>| { f.par_iter_mut().for_each(|_| {}); });", False, "par_item_send")
+    add("par-send[&guard]", "world.add_handler(|_: Receiver<E>, f: Fetcher<&Gd>| { f.par_iter().for_each(|_| {}); });", True, "par_item_send")
+    add("par-send[&cell]", "world.add_handler(|_: Receiver<E>, f: Fetcher<&Cl>| { f.par_iter().for_each(|_| {}); });", False, "par_item_send")
+    add("par-send[&mut cell]", "world.add_handler(|_: Receiver<E>, mut f: Fetcher<&mut Cl>| { f.par_iter_mut().for_each(|_| {}); });", True, "par_item_send")
+    add("par-send[owned &mut Rc]", "world.add_handler(|_: Receiver<E>, f: Fetcher<&mut R>| { f.into_par_iter().for_each(|_| {}); });", False, "par_item_send")
+    return T
 
 
 def compile_one(args):
@@ -229,11 +279,17 @@ def check_c18(tier, seed, replay):
         problems.append("harness/evenio does not build: " + hlog[-800:])
     rlib, deps = find_rlib()
     twins = twin_table(tier)
+    # the gates of parallel iteration are compiled against a build of evenio with the `rayon` feature
+    rlib_rayon, _ = find_rlib(("rayon",))
+    if rlib_rayon:
+        twins += rayon_twins()
+    else:
+        problems.append("evenio does not build with the `rayon` feature: the parallel-iteration gates were not exercised")
     outdir = os.path.join(CACHE, "twins")
     os.makedirs(outdir, exist_ok=True)
     results = {}
     if rlib:
-        jobs = [(t["name"], PRELUDE.replace("BODY", t["body"]), rlib, deps, outdir) for t in twins]
+        jobs = [(t["name"], PRELUDE.replace("BODY", t["body"]), (rlib_rayon if t.get("rayon") else rlib), deps, outdir) for t in twins]
         with concurrent.futures.ThreadPoolExecutor(max_workers=14) as ex:
             for name, ok, codes, first, path in ex.map(compile_one, jobs):
                 results[name] = (ok, codes, first, path)
